@@ -377,6 +377,9 @@ class _Sum:
 
 
 def run(prop_id, tier, seed, replay=None):
+    from . import cfsync_free
+    if replay and cfsync_free.is_free_replay(replay):      # a saved trace of the free-running slice
+        return cfsync_free.run_replay(prop_id, tier, seed, replay)
     t0 = time.time()
     rng = random.Random(seed)
     sc = core.scratch("cfs")
@@ -467,14 +470,20 @@ def run(prop_id, tier, seed, replay=None):
                  if any(a["kind"] == "H" and s["obs"]["ban"][q] == 1 and
                         (t["steps"][i - 1]["obs"] if i else t["init_obs"])["ban"][q] == 0
                         for q, a in enumerate(s["obs"]["asg"])))
-        return family.finish(prop_id, tier, seed, t0, tot, g, paths, observed, verdict, dr,
-                             {"phases": phase_info, "race_slice": race_info, "code_version": CODE_VERSION,
-                              "scenarios": len(scen_all),
-                              "scenario_list": [scen_tla(*s) for s in scen_all][:60],
-                              "edges_only_reachable_through_model_violation": unreach,
-                              "replayed_steps_where_the_code_panicked": panics,
-                              "replayed_steps_banning_an_honest_peer": hb,
-                              "paths_rerun_for_map_order_choice": sum(1 for t in observed if t.get("tries", 1) > 1)},
-                             ASSUMPTIONS, label=label)
+        rc = family.finish(prop_id, tier, seed, t0, tot, g, paths, observed, verdict, dr,
+                           {"phases": phase_info, "race_slice": race_info, "code_version": CODE_VERSION,
+                            "scenarios": len(scen_all),
+                            "scenario_list": [scen_tla(*s) for s in scen_all][:60],
+                            "edges_only_reachable_through_model_violation": unreach,
+                            "replayed_steps_where_the_code_panicked": panics,
+                            "replayed_steps_banning_an_honest_peer": hb,
+                            "paths_rerun_for_map_order_choice": sum(1 for t in observed if t.get("tries", 1) > 1)},
+                           ASSUMPTIONS, label=label)
+        if not replay:
+            # the REAL cfHandler loop, free-running under virtual time (cfsync_free.py, notes/cfsync.md section 13)
+            rc2, cov2 = cfsync_free.run_slice(prop_id, tier, seed)
+            cfsync_free.merge_evidence(prop_id, cov2)
+            rc = 1 if 1 in (rc, rc2) else max(rc, rc2)
+        return rc
     finally:
         shutil.rmtree(sc, ignore_errors=True)
